@@ -1,10 +1,12 @@
 mod c27;
+mod c28;
 mod world;
 
 fn main() {
     let ctx = mc_core::Ctx::from_args();
     match ctx.prop.as_str() {
         "C27" => c27::run(ctx),
+        "C28" => c28::run(ctx),
         p => mc_core::report::machinery_failure(&format!("mc-net2 does not serve {p} yet")),
     }
 }
